@@ -119,6 +119,10 @@ def emit (w : World) (r : EpRef) (e : Ep) (mt : Nat) (pays : List Pay) : World :
 
 def step (why : Bool) (w0 : World) (ws : List String) : World × String :=
   let w := { w0 with line := w0.line + 1 }
+  -- `new n cap t`: a timer world (short handshake timeout, clients dialled with a deadline): the same sessions
+  let ws := match ws with
+    | ["new", n, cap, "t"] => ["new", n, cap]
+    | _ => ws
   match ws with
   | ["new", n, cap] => match n.toNat?, cap.toNat? with
     | some n, some cap =>
@@ -171,6 +175,12 @@ def step (why : Bool) (w0 : World) (ws : List String) : World × String :=
         deliver why w to a d
       | none => (w, "bad-op")
     | _, _, _, _ => (w, "bad-op")
+  -- a duplicate of a completed handshake's ClientAck, and the handshake timers firing: the
+  -- established sessions are not concerned (C03_forged_noop: not a transport datagram of theirs)
+  | ["hsdup", i] => match i.toNat? with
+    | some i => if i < w.n then (w, "ok") else (w, "bad-op")
+    | none => (w, "bad-op")
+  | ["hswait"] => (w, "ok")
   | ["rd", ep] => match parseEp ep with
     | some r => match w.get r with
       | some e =>
